@@ -155,7 +155,12 @@ Init06 == /\ \/ \E h \in AllH, n \in BOOLEAN, a \in Labels, ch \in Chains :
                    c = Case06(kt, a, ch[1], ch[2], sf, "none", FALSE, "none", NoEM)
           /\ r = Design06(c)
           /\ hist = IF c.rel \in TwinRels THEN "used" ELSE "fresh"   \* a twin presupposes the genuine one attested before
-Mutable == c.mut = "none" /\ c.kt = "rsa" /\ c.h0 \in Hashes /\ hist = "fresh"
+\* in which contexts the mutation operators are applied: everywhere (thorough tier) or where at most one of chain
+\* relation / validity deviates from the accepting context (quick tier; the unmutated contexts are always complete)
+CONSTANT MutCtx(_)
+MutCtxAll(x) == TRUE
+MutCtxQuick(x) == x.rel = "root" \/ x.time = "valid"
+Mutable == c.mut = "none" /\ c.kt = "rsa" /\ c.h0 \in Hashes /\ hist = "fresh" /\ MutCtx(c)
 Put(name, em) == /\ c' = [c EXCEPT !.mut = name, !.em = em]
                  /\ r' = Design06(c')
                  /\ UNCHANGED hist
